@@ -145,18 +145,18 @@ theorem gbin_nopanic (op : GBin) (a b : GVal) (f : Fail) (hop : op ≠ .div)
     | (split at h <;> first | (cases h; intro k hk; cases hk) | cases h)
 
 
-structure InertAt (n : Nat) : Prop where
-  ev : ∀ {F ρ w e}, inertSyn false e = true → Quiet w (evalG n F ρ w e)
-  el : ∀ {F ρ w es}, inertSynList false es = true → Quiet w (evalListG n F ρ w es)
-  ef : ∀ {F ρ w fs}, inertSynFields false fs = true → Quiet w (evalFieldsG n F ρ w fs)
+structure InertAt (b : Bool) (n : Nat) : Prop where
+  ev : ∀ {F ρ w e}, inertSyn b e = true → Quiet w (evalG n F ρ w e)
+  el : ∀ {F ρ w es}, inertSynList b es = true → Quiet w (evalListG n F ρ w es)
+  ef : ∀ {F ρ w fs}, inertSynFields b fs = true → Quiet w (evalFieldsG n F ρ w fs)
 
-theorem inert0 : InertAt 0 := by
+theorem inert0 {b : Bool} : InertAt b 0 := by
   constructor <;> intros <;> simp [evalG, evalListG, evalFieldsG, Quiet]
 
 theorem quiet_stuck {α : Type} (w w' : GWorld) (s : String) : Quiet (α := α) w (.fail (.stuck s) w') := by
   intro k hk; cases hk
 
-theorem inertE (n : Nat) (ih : InertAt n) {F ρ w e} (hi : inertSyn false e = true) :
+theorem inertE {b : Bool} (n : Nat) (ih : InertAt b n) {F ρ w e} (hi : inertSyn b e = true) :
     Quiet w (evalG (n+1) F ρ w e) := by
   cases e with
   | nil t => rw [evalG.eq_def]; simp [Quiet]
@@ -189,7 +189,7 @@ theorem inertE (n : Nat) (ih : InertAt n) {F ρ w e} (hi : inertSyn false e = tr
   | bin op t l r =>
     have hop : op ≠ .div := by
       intro h; subst h; simp [inertSyn] at hi
-    have hi' : inertSyn false l = true ∧ inertSyn false r = true := by
+    have hi' : inertSyn b l = true ∧ inertSyn b r = true := by
       cases op <;> simp_all [inertSyn]
     rw [evalG.eq_def]; simp only
     have hl := ih.ev (F := F) (ρ := ρ) (w := w) hi'.1
@@ -248,12 +248,32 @@ theorem inertE (n : Nat) (ih : InertAt n) {F ρ w e} (hi : inertSyn false e = tr
       simp only
       cases t <;> first | (exfalso; simp at hi; done) | simp [Quiet]
   | call t f args => simp [inertSyn] at hi
-  | field f t o => simp [inertSyn] at hi
+  | field f t o =>
+    simp only [inertSyn, Bool.and_eq_true, Bool.not_eq_true'] at hi
+    rw [evalG.eq_def]; simp only
+    have := ih.ev (F := F) (ρ := ρ) (w := w) hi.2
+    cases he : evalG n F ρ w o with
+    | fail f' w' => rw [he] at this; exact this
+    | ok v w' =>
+      rw [he] at this
+      simp only [Quiet] at this
+      subst this
+      cases v <;> simp only [] <;> try exact quiet_stuck _ _ _
+      · rename_i sn fs
+        cases lookupG fs f <;> first | simp [Quiet] | exact quiet_stuck _ _ _
+      · rename_i l
+        cases hh : w'.heap[l]? with
+        | none => exact quiet_stuck _ _ _
+        | some hv =>
+          cases hv <;> simp only [] <;> try exact quiet_stuck _ _ _
+          rename_i sn fs
+          cases lookupG fs f <;> first | simp [Quiet] | exact quiet_stuck _ _ _
+      · simp only [hi.1.2, Bool.false_eq_true, if_false]; exact quiet_stuck _ _ _
   | index t a i => simp [inertSyn] at hi
   | cast t e => simp [inertSyn] at hi
   | blocke t ss e => simp [inertSyn] at hi
 
-theorem inertL (n : Nat) (ih : InertAt n) {F ρ w es} (hi : inertSynList false es = true) :
+theorem inertL {b : Bool} (n : Nat) (ih : InertAt b n) {F ρ w es} (hi : inertSynList b es = true) :
     Quiet w (evalListG (n+1) F ρ w es) := by
   cases es with
   | nil => rw [evalListG.eq_def]; simp [Quiet]
@@ -273,7 +293,7 @@ theorem inertL (n : Nat) (ih : InertAt n) {F ρ w es} (hi : inertSynList false e
       | fail f w2 => rw [hr] at h2; exact h2
       | ok vs w2 => rw [hr] at h2; simpa [Quiet] using h2
 
-theorem inertFs (n : Nat) (ih : InertAt n) {F ρ w fs} (hi : inertSynFields false fs = true) :
+theorem inertFs {b : Bool} (n : Nat) (ih : InertAt b n) {F ρ w fs} (hi : inertSynFields b fs = true) :
     Quiet w (evalFieldsG (n+1) F ρ w fs) := by
   cases fs with
   | nil => rw [evalFieldsG.eq_def]; simp [Quiet]
@@ -295,15 +315,20 @@ theorem inertFs (n : Nat) (ih : InertAt n) {F ρ w fs} (hi : inertSynFields fals
         | fail f w2 => rw [hr] at h2; exact h2
         | ok vs w2 => rw [hr] at h2; simpa [Quiet] using h2
 
-theorem inert_all : ∀ n, InertAt n
+theorem inert_all (b : Bool) : ∀ n, InertAt b n
   | 0 => inert0
   | n + 1 =>
-    have ih := inert_all n
+    have ih := inert_all b n
     { ev := inertE n ih, el := inertL n ih, ef := inertFs n ih }
 
 /-- the syntactic criterion is sound: literals, variables, `-`, `!`, non-dividing binary
     operators and composite literals of such can neither panic nor touch the world -/
 theorem inertSyn_sound (F : GFile) (e : GExpr) (h : inertSyn false e = true) : Inert F e :=
-  fun n _ _ => (inert_all n).ev h
+  fun n _ _ => (inert_all false n).ev h
+
+/-- … and so are field projections `e.f` of an `e` whose static type is not a pointer: `Go.Sem` has
+    no rule for a nil value of a non-pointer type, so `e.f` can be stuck but cannot panic -/
+theorem inertSyn_sound_field (F : GFile) (e : GExpr) (h : inertSyn true e = true) : Inert F e :=
+  fun n _ _ => (inert_all true n).ev h
 
 end Goml.Dce
